@@ -429,15 +429,56 @@ def _s3_s4(program, model, res, s3="C06-S3", s4="C06-S4"):
                     res.fail_at(s4, m, f"shortcut:{unparse(guards[-1][0].cond) if guards else 'unguarded'}",
                                 f"`{unparse(v)}` bypasses self (and its constructor's validation) without a dominating check of "
                                 f"the argument against self.column_names: the collapsed pipeline accepts steps the stepwise one rejects", r_stmt)
+    # the same bypass written as a walk: `base = self; while …: base = base.sources[0]; … <Kind>Node(source=base, …)`.  The argument then has to be
+    # checked against the node the step is added to (self), not against the node the walk ended on
+    for m in base.methods.values():
+        walked = {st.targets[0].id for st in ast.walk(m.node) if isinstance(st, ast.Assign) and len(st.targets) == 1 and isinstance(st.targets[0], ast.Name)
+                  and isinstance(st.value, ast.Subscript) and isinstance(st.value.value, ast.Attribute) and st.value.value.attr == "sources"
+                  and isinstance(st.value.value.value, ast.Name) and st.value.value.value.id == st.targets[0].id}
+        if not walked:
+            continue
+        builds = [c for c in ast.walk(m.node) if isinstance(c, ast.Call) and (dotted_name(c.func) or "").endswith("Node")
+                  and any(kw.arg in ("source", "a") and isinstance(kw.value, ast.Name) and kw.value.id in walked for kw in c.keywords)]
+        if not builds:
+            continue
+        n_short += 1
+        res.analysed(m)
+        g = cfgmod.build(m.node)
+        params = [p for p in m.params() if p != "self"]
+        # raising guards of the method: which node's columns do they compare the argument with?
+        against_self, against_walked = False, None
+        for r in g.raises():
+            for (b, lab) in g.lexical_guards(r):
+                text = unparse(b.cond)
+                for nm in {x.id for x in ast.walk(b.cond) if isinstance(x, ast.Name)}:
+                    for a_ in ast.walk(m.node):
+                        if isinstance(a_, ast.Assign) and any(isinstance(t_, ast.Name) and t_.id == nm for t_ in a_.targets):
+                            text += " " + unparse(a_.value)
+                if not any(p_ in text for p_ in params):
+                    continue
+                if "self.column_names" in text:
+                    against_self = True
+                for wn in walked:
+                    if f"{wn}.column_names" in text:
+                        against_walked = wn
+        if against_self and against_walked is None:
+            res.ok(s4, f"{m.name}: the walk past narrowing nodes happens after the argument was checked against self.column_names")
+        else:
+            res.fail_at(s4, m, f"shortcut-walk:{m.name}",
+                        f"{m.name} walks down to `{sorted(walked)[0]}` (`{sorted(walked)[0]} = {sorted(walked)[0]}.sources[0]`) and builds the step on it; its argument check compares with "
+                        f"`{against_walked or '?'}.column_names`, the node the walk ended on, not with self.column_names: d.drop_columns(['secret']).select_columns(['id', 'secret']) is "
+                        f"accepted and returns the dropped column, while the step applied to the materialised result is refused (KeyError)", builds[0])
     # every `if self.is_trivial_when_intermediate_()` of the builder class must have been recognised as a delegation (a repair that removes
     # an elimination lowers both numbers; an unrecognised form of the skip must not pass silently)
     n_guards = sum(1 for m in base.methods.values() for n in ast.walk(m.node)
                    if isinstance(n, ast.If) and "is_trivial_when_intermediate_" in unparse(n.test))
+    n_guards = sum(1 for m in base.methods.values() for n in ast.walk(m.node)
+                   if isinstance(n, ast.If) and "is_trivial_when_intermediate_" in unparse(n.test))  # (a `while` over the same test is a walk, judged above)
     if n_deleg < n_guards:
         raise AnalysisError(f"{s3}: {n_guards} branches test is_trivial_when_intermediate_ but only {n_deleg} were recognised as delegations past the node")
     if n_guards == 0:
         res.ok(s3, "no builder skips intermediate nodes")
-    res.expect_count(s4, "collapse shortcuts", n_short, 2)
+    res.expect_count(s4, "collapse shortcuts", n_short, 1)
 
 
 # ---------------------------------------------------------------------------------------------- S5
